@@ -57,7 +57,24 @@ MapsFor(slots) ==
       retype(i, t) == [k \in 1..n |-> IF k = i THEN Entry(ex[i].n, t, ValOfBits(slots[i].c, slots[i].i, t)) ELSE ex[k]]
       relayout(i) == [k \in 1..n |-> IF k = i THEN [OtherLayout(slots[i].c) EXCEPT !.n = ex[i].n] ELSE ex[k]]
       extra == ex \o <<Entry("ZZ", T16, VU(BitsOfNat(5, 16))), Entry("Unused", TTup(<<TBool, TBool>>), VTup(<<VBool(TRUE), VBool(FALSE)>>))>>
+      \* an ill-typed entry together with names the program does not use (sorting before / between / after the
+      \* declared names): unused names must neither hide nor cause a type error
+      unusedLo == <<Entry("A0", T8, VU(BitsOfNat(7, 8)))>>
+      unusedMid == <<Entry("C_x", TBool, VBool(TRUE))>>
+      unusedHi == <<Entry("zz", T16, VU(BitsOfNat(9, 16)))>>
+      \* ill-typed values whose content does not show it (None at another element type, the untaken side of an Either)
+      hiddenW(i) == LET t == slots[i].t IN
+                    IF t.k = "opt" THEN <<[k \in 1..n |-> IF k = i THEN Entry(ex[i].n, TOpt(T16), VNone) ELSE ex[k]]>>
+                    ELSE IF t.k = "either"
+                    THEN <<[k \in 1..n |-> IF k = i THEN Entry(ex[i].n, TEither(t.l, T16), VLeft(ZeroVal(t.l))) ELSE ex[k]],
+                           [k \in 1..n |-> IF k = i THEN Entry(ex[i].n, TEither(T16, t.r), VRight(ZeroVal(t.r))) ELSE ex[k]]>>
+                    ELSE <<>>
+      bad(i) == LET cl == ClassOf(slots[i].c) IN retype(i, cl[((CHOOSE k \in 1..Len(cl) : cl[k] = slots[i].t) % Len(cl)) + 1])
   IN <<ex, extra>>
+     \o Concat([i \in 1..n |-> <<unusedLo \o bad(i), bad(i) \o unusedHi, unusedLo \o bad(i) \o unusedMid \o unusedHi,
+                                 unusedMid \o relayout(i)>>])
+     \o <<unusedLo \o ex \o unusedMid \o unusedHi>>
+     \o Concat([i \in 1..n |-> hiddenW(i)])
      \o [i \in 1..n |-> drop(i)]
      \o [i \in 1..n |-> relayout(i)]
      \o Concat([i \in 1..n |-> LET cl == ClassOf(slots[i].c) IN [k \in 1..Len(cl) |-> retype(i, cl[k])]])
